@@ -1,5 +1,11 @@
 """Contracts for the delivery of accumulated patches: patching.patch_obj (A3 request sequence, A4 identity
-binding), application.apply (A1 no lost re-trigger) and application.patch_and_check (A2 returned version)."""
+binding), application.apply (A1 no lost re-trigger) and application.patch_and_check (A2 returned version).
+
+Known findings on the unchanged tree (native reproductions in /verif/findings, listed in
+/verif/known_findings.d/c08.json): F-C08-1 (A4: merge-patches carry no identity precondition),
+F-C08-2 (A3: `status: None` is dropped when status is a subresource), F-C03-1 (A1: a truthy patch that
+sends no request swallows a pending delay).
+D6 (patch carry-over in daemons._daemon/_timer) lives in c10_timers.py (clause patch_carried_over)."""
 from pyvc import *
 from pyvc.stubs import Opaque, NullLogger, Clock, StubEvent, make_sleep
 from kopf._cogs.clients import errors
@@ -50,6 +56,49 @@ def under_status(path):
     return Or(Eq(path, '/status'), path.startswith('/status/'))
 
 
+class OpPath:
+    """
+    The `path` of a JSON-patch op: an arbitrary symbolic string `s`. The two questions the routing asks
+    (== '/status', .startswith('/status/')) are answered from a three-way case split made on first use --
+    s == '/status' | s starts with '/status/' | neither -- under which `s` is constrained accordingly, so
+    one solver call per op replaces one per evaluation. The split is a partition of all strings; every
+    other question is delegated to the constrained symbolic string itself.
+    """
+    CLASSES = ('exact', 'inside', 'elsewhere')
+
+    def __init__(self, vc, s):
+        self.vc, self.s, self.cls = vc, s, None
+
+    def _class(self):
+        if self.cls is None:
+            self.cls = self.CLASSES[self.vc.nondet(3, "op path: '/status' | '/status/...' | elsewhere")]
+            exact, inside = Eq(self.s, '/status'), self.s.startswith('/status/')
+            self.vc.assume({'exact': exact, 'inside': inside, 'elsewhere': And(Not(exact), Not(inside))}[self.cls], 'op path class')
+        return self.cls
+
+    def __eq__(self, other):
+        if isinstance(other, str) and other == '/status':
+            return self._class() == 'exact'
+        return self.s == other
+
+    def __ne__(self, other):
+        r = self.__eq__(other)
+        return (not r) if isinstance(r, bool) else Not(r)
+
+    __hash__ = None
+
+    def startswith(self, prefix):
+        if isinstance(prefix, str) and prefix == '/status/':
+            return self._class() == 'inside'
+        return self.s.startswith(prefix)
+
+    def __getattr__(self, name):
+        return getattr(self.s, name)
+
+    def __repr__(self):
+        return '<op-path>'
+
+
 class Req:
     """One entry of the ghost request trace."""
     def __init__(self, no, kind, ctype, payload, seq):
@@ -57,6 +106,7 @@ class Req:
         self.items = list(payload) if isinstance(payload, list) else dict(payload) if isinstance(payload, dict) else payload
         self.outcome = None         # 'ok' | '404' | '422' | 'error'
         self.response = None
+        self.error = None
 
     def __repr__(self):
         return f'<req#{self.no} {self.kind} {self.ctype} {self.outcome}>'
@@ -106,7 +156,7 @@ def patch_obj_scenario(vc, *, op_counts=(0, 2), silent=False):
             if base is None:
                 raise ValueError('Cannot build a JSON-patch without the original body as a reference.')
             n = op_counts[vc.nondet(len(op_counts), 'number of ops')]
-            ops = [patches.JSONPatchItem(op='add', path=vc.str('op.path'), value=Opaque(f'op{i}.value')) for i in range(n)]
+            ops = [patches.JSONPatchItem(op='add', path=OpPath(vc, vc.str('op.path')), value=Opaque(f'op{i}.value')) for i in range(n)]
             s.calls.append(Opaque('as_json_patch', receiver=self, base=base, ops=ops, items=list(ops), seq=len(vc.trace)))
             vc.emit('as_json_patch', self, base, ops)
             return ops
@@ -128,18 +178,18 @@ def patch_obj_scenario(vc, *, op_counts=(0, 2), silent=False):
             r.response = {'metadata': {'namespace': NS, 'name': NAME, 'uid': vc.str('uid'), 'resourceVersion': vc.str('rv')},
                           'spec': {}, 'status': {}}
             return r.response
-        if k == 1:
-            raise errors.APINotFoundError(None, status=404, headers={})
-        if k == 2:
-            raise errors.APIUnprocessableEntityError(None, status=422, headers={})
-        raise errors.APIServerError(None, status=500, headers={})
+        r.error = [errors.APINotFoundError, errors.APIUnprocessableEntityError, errors.APIServerError][k - 1](
+            None, status=[404, 422, 500][k - 1], headers={})
+        raise r.error
     vc.used('api.patch', 'N2')
     ld = vc.load('kopf._cogs.clients.patching', 'patch_obj', stubs={'api.patch': api_patch, 'patches.Patch': ContractPatch})
     kw = dict(settings=s.settings, resource=s.resource, namespace=NS, name=NAME, patch=s.patch, logger=s.logger)
     s.raised, s.result = None, None
     try:
         s.result = vc.drive(ld.fn(silent=silent, **kw))
-    except errors.APIError as e:
+    except Unsupported:
+        raise
+    except Exception as e:
         s.raised = e
     s.merges = [r for r in s.reqs if r.ctype == MERGE]
     s.jsons = [r for r in s.reqs if r.ctype == JSONP]
@@ -159,8 +209,8 @@ def fresh_state_before(s, seq):
 @harness('A3', targets='kopf._cogs.clients.patching.patch_obj', props=['C08', 'C06'],
          clauses=['addressing', 'merge_patches_complete', 'merge_before_json_and_stop_on_failure',
                   'ops_of_all_fns_on_freshest_body', 'ops_routed_completely', 'version_test_guards_ops',
-                  'conflict_carries_all_fns', 'success_drops_fns', 'not_found_is_silent', 'returns_last_response',
-                  'patch_not_consumed'],
+                  'conflict_carries_all_fns', 'success_drops_fns', 'not_found_is_silent', 'other_failures_escape',
+                  'returns_last_response', 'patch_not_consumed'],
          canaries=['canary.never_conflicts', 'canary.always_sends', 'canary.never_json_patches'],
          trusted=['api.patch (-> N2/N1): sends one PATCH; returns the stored object (with metadata.resourceVersion) or raises an APIError subclass by status',
                   'patches.Patch.as_json_patch by contract A5 (bounded): [] for an empty patch, ValueError without a reference body, else ops computed from (dict part, fns, reference body)',
@@ -176,8 +226,10 @@ def A3(vc):
     JSON-patch request led by `test /metadata/resourceVersion == version of the state the ops are valid
     for` (the body they were computed from, or the response to the sibling JSON-patch). 422 in a
     JSON-patch request: returns a remaining patch with all fns and no fields, no later request; full
-    success: no remaining patch. 404 anywhere: (None, None), silently. The first result is the last
-    successful response. Payload comparisons ignore metadata.uid/resourceVersion preconditions.
+    success: no remaining patch. 404 anywhere: (None, None), silently. Any other failed request (incl. 422
+    on a merge-patch) escapes as the API's own error -- nothing is swallowed, nothing else is raised. The
+    first result is the last successful response. Payload comparisons ignore metadata.uid/resourceVersion
+    preconditions.
     """
     s = patch_obj_scenario(vc)
     content, as_sub = s.content, s.as_sub
@@ -226,7 +278,7 @@ def A3(vc):
         pos = [[i for i, o in enumerate(c.items) if o is p] for p in payload[1:]]
         vc.ensure('ops_routed_completely', all(len(x) == 1 for x in pos) and [x[0] for x in pos] == sorted(set(x[0] for x in pos if x)))
         for o in c.items:
-            to_status = And(as_sub, under_status(o['path']))
+            to_status = And(as_sub, under_status(o['path'].s))
             here = any(p is o for p in payload[1:])
             vc.ensure('ops_routed_completely', Iff(here, to_status if j.kind == 'status' else Not(to_status)))
         # the guard: the version of the state these ops are valid for
@@ -253,13 +305,16 @@ def A3(vc):
         vc.ensure('success_drops_fns', s.returned_pair and not s.result[1])
     if any(r.outcome == '404' for r in s.reqs):
         vc.ensure('not_found_is_silent', s.returned_pair and s.result[0] is None and s.result[1] is None)
-    elif s.raised is None:
+    escaping = [r for r in s.failed if r.outcome == 'error' or (r.outcome == '422' and r.ctype != JSONP)]
+    vc.ensure('other_failures_escape', s.raised is (escaping[0].error if escaping else None))
+    if s.raised is None and not any(r.outcome == '404' for r in s.reqs):
         vc.ensure('returns_last_response', s.returned_pair and s.result[0] is (s.oks[-1].response if s.oks else None))
     vc.ensure('patch_not_consumed', same_tree(dict(s.patch), s.patch_before) and len(s.patch.fns) == len(s.fns)
               and all(a is b for a, b in zip(s.patch.fns, s.fns)))
-    vc.canary('canary.never_conflicts', s.returned_pair and s.result[1] is None)
-    vc.canary('canary.always_sends', len(s.reqs) >= 1)
-    vc.canary('canary.never_json_patches', not s.jsons)
+    if not content:      # (canaries cost a model each time they are refuted: state them on the fns-only scenarios)
+        vc.canary('canary.never_conflicts', s.returned_pair and s.result[1] is None)
+        vc.canary('canary.always_sends', len(s.reqs) >= 1)
+        vc.canary('canary.never_json_patches', not s.jsons)
     return ('raise', type(s.raised).__name__) if s.raised is not None else \
         ('return', s.result[0] is None, s.result[1] is None, [(r.kind, r.ctype, r.outcome) for r in s.reqs])
 
@@ -324,3 +379,281 @@ def vc_proved(vc, cond):
     if eng.mode != 'sym':
         return bool(cond)
     return eng._check(z3.Not(cond.term)) == z3.unsat
+
+
+# ================================================================================================ A2
+def server_object(vc, tag=''):
+    """A stored object as the API returns it: metadata.resourceVersion always; a non-empty
+    deletionTimestamp and a list of finalizers optionally (each absent / present)."""
+    md = {'namespace': NS, 'name': NAME, 'uid': vc.str(f'{tag}uid'), 'resourceVersion': vc.str(f'{tag}rv')}
+    if vc.nondet(2, 'deletionTimestamp present?') == 1:
+        ts = vc.str(f'{tag}deletionTimestamp')
+        vc.assume(vc_len(ts) > 0, 'server: deletionTimestamp is an RFC 3339 timestamp (non-empty)')
+        md['deletionTimestamp'] = ts
+    fk = vc.nondet(3, 'finalizers: absent / [] / [one]')
+    if fk:
+        md['finalizers'] = [[], [vc.str(f'{tag}finalizer')]][fk - 1]
+    return {'metadata': md, 'spec': {}, 'status': {}}
+
+
+@harness('A2', targets='kopf._core.actions.application.patch_and_check', props=['C07', 'C08'],
+         clauses=['empty_patch_no_request', 'one_call_for_this_object', 'version_of_last_response',
+                  'never_arriving_marker', 'remaining_passed_through', 'inconsistencies_only_logged', 'patch_not_consumed'],
+         canaries=['canary.always_the_servers_version', 'canary.always_calls'],
+         trusted=['patching.patch_obj by contract A3: returns (response of the last successful request | None, remaining patch | None) or raises an APIError',
+                  'diffs.diff by contract E3 (bounded): a pure function returning a Diff'])
+def A2(vc):
+    """
+    patch_and_check: an empty patch sends nothing and returns (None, None). Otherwise patch_obj is called
+    exactly once, for body.metadata.namespace/name, with this very patch; the returned version is the
+    metadata.resourceVersion of the last successful response (None if there is none), except when that
+    response shows an ongoing deletion with no finalizers left: then a marker that is not the server's
+    version (it never arrives through the watch). The remaining patch is handed through untouched, the
+    patch itself is not modified. Whatever the merge-patch comparison (diffs.diff) reports only reaches the log.
+    """
+    raw = {'metadata': {'namespace': NS, 'name': NAME, 'uid': vc.str('uid0'), 'resourceVersion': vc.str('rv0')}, 'spec': {}}
+    body = bodies.Body(raw)
+    pk = vc.nondet(3, 'patch: empty / fields / fns only')
+    fns = [Opaque('fn1')] if pk == 2 else []
+    patch = patches.Patch({'status': {'y': vc.str('patch.status.y')}, 'metadata': {'finalizers': []}} if pk == 1 else {}, body=body, fns=fns)
+    settings, resource = Opaque('settings'), Opaque('resource')
+    calls, warnings, out = [], [], {}
+    fields_before = dict(patch)
+
+    class Logger(NullLogger):
+        def warning(self, *a, **kw):
+            warnings.append(a)
+    logger = Logger()
+
+    async def patch_obj(**kw):
+        calls.append(kw)
+        vc.emit('patch_obj', kw)
+        await suspend('patch_obj')
+        k = vc.nondet(4, 'patch_obj: gone-or-nothing / delivered / conflict / error')
+        out['kind'] = k
+        if k == 0:
+            out['ret'] = (None, None)
+        elif k == 1:
+            out['ret'] = (server_object(vc), None)
+        elif k == 2:
+            vc.assume(bool(kw['patch'].fns), 'A3: a conflict is reported only for patches with transformation fns')
+            resp = server_object(vc) if vc.nondet(2, 'a merge-patch succeeded before the conflict?') == 1 else None
+            out['ret'] = (resp, patches.Patch(fns=kw['patch'].fns))
+        else:
+            out['exc'] = errors.APIServerError(None, status=500, headers={})
+            raise out['exc']
+        return out['ret']
+    vc.used('patching.patch_obj', 'A3')
+    dk = [None]
+
+    def diff(a, b, **kw):
+        # E3: some Diff; the three shapes the caller distinguishes
+        dk[0] = vc.nondet(3, 'diff: empty / only a K8s-managed empty field / a real mismatch')
+        from kopf._cogs.structs import diffs as real
+        items = [[], [real.DiffItem(real.DiffOperation.REMOVE, ('metadata', 'finalizers'), [], None)],
+                 [real.DiffItem(real.DiffOperation.CHANGE, ('status', 'y'), 'a', 'b')]][dk[0]]
+        return real.Diff(items)
+    vc.used('diffs.diff', 'E3')
+    ld = vc.load('kopf._core.actions.application', 'patch_and_check', stubs={'patching.patch_obj': patch_obj, 'diffs.diff': diff})
+    raised = None
+    try:
+        result = vc.drive(ld.fn(settings=settings, resource=resource, body=body, patch=patch, logger=logger))
+    except Unsupported:
+        raise
+    except Exception as e:
+        raised, result = e, None
+    vc.canary('canary.always_calls', len(calls) == 1)
+    # frame (apply() tests the patch again after this call): the patch is left as it was
+    vc.ensure('patch_not_consumed', same_tree(dict(patch), fields_before) and len(patch.fns) == len(fns)
+              and all(a is b for a, b in zip(patch.fns, fns)))
+    if pk == 0:
+        vc.ensure('empty_patch_no_request', not calls and raised is None and result == (None, None))
+        return ('empty', result)
+    vc.ensure('one_call_for_this_object', len(calls) == 1)
+    for kw in calls:
+        vc.ensure('one_call_for_this_object', kw.get('patch') is patch and kw.get('namespace') == NS and kw.get('name') == NAME
+                  and kw.get('resource') is resource and kw.get('settings') is settings and not kw.get('silent'))
+    if raised is not None or 'ret' not in out:
+        vc.ensure('inconsistencies_only_logged', raised is not None and raised is out.get('exc'))   # only patch_obj's own error may escape
+        return ('raise', type(raised).__name__)
+    resp, remaining = out['ret']
+    ok = isinstance(result, tuple) and len(result) == 2
+    vc.ensure('inconsistencies_only_logged', ok)
+    vc.ensure('remaining_passed_through', ok and result[1] is remaining)
+    if resp is None:
+        vc.ensure('version_of_last_response', ok and result[0] is None)
+        return ('return', None, remaining is None)
+    md = resp['metadata']
+    ongoing = 'deletionTimestamp' in md          # present => non-null, non-empty (server contract above)
+    released = not md.get('finalizers')
+    version = result[0] if ok else None
+    if ongoing and released:
+        vc.ensure('never_arriving_marker', And(isinstance(version, (str, SStr)), Not(Eq(version, md['resourceVersion']))))
+    else:
+        vc.ensure('version_of_last_response', Eq(version, md['resourceVersion']))
+    vc.canary('canary.always_the_servers_version', Eq(version, md['resourceVersion']))
+    return ('return', version, remaining is None, len(warnings))
+
+
+# ================================================================================================ A1
+DUMMY = ('metadata', 'annotations', 'kopf.zalando.org/touch-dummy')
+
+
+@harness('A1', targets='kopf._core.actions.application.apply', props=['C03', 'C08', 'C07'],
+         clauses=['quiescent_iff_nothing_to_do', 'no_lost_retrigger', 'patched_means_no_sleep_no_touch',
+                  'sleep_interruptible_and_not_longer_than_delay', 'touch_only_after_full_sleep', 'immediate_touch',
+                  'touch_is_fresh_and_separate', 'returns_last_version_and_first_remaining', 'only_patching_errors_escape'],
+         canaries=['canary.always_applied', 'canary.never_touches', 'canary.never_sleeps'],
+         trusted=['application.patch_and_check by contract A2 (+A3): never modifies the patch; empty patch -> no request, (None, None); a patch with fields -> at least one PATCH request; a patch with fns only -> zero or more requests; returns (version | None, remaining | None) or raises an APIError',
+                  'aiotime.sleep by contract T1 (pyvc.stubs.make_sleep)',
+                  'progress_storage.touch by contract E5: writes `value` into the patch at the dummy field iff it differs from the value stored in the body'],
+         assumes=['datetime.now(utc).isoformat() differs from the touch-dummy stored in the body (time has moved on since the previous touch)'])
+def A1(vc):
+    """
+    apply() never loses the re-trigger of the next cycle. On return: `applied` iff there was nothing to
+    patch and nothing to wait for, and then no request was sent (the framework stops writing). If delays
+    are pending, then (b) a PATCH request went out for the accumulated patch and was answered (its echo, the
+    conflicting change or the deletion re-triggers; an API error escapes to the caller instead) -- and
+    then neither sleep nor touch follow; or (c) the sleep -- on stream_pressure, for at most min(delays) --
+    was interrupted and stream_pressure is set (a queued event re-triggers); or (d) the sleep ran out (or
+    the delay was <= 0: no sleep at all) and a separate touch-patch carrying a fresh value was sent. The
+    returned version is that of the last patching call, the returned remaining patch that of the first.
+    """
+    stored_dummy = vc.opt('body.dummy', vc.str)
+    md = {'namespace': NS, 'name': NAME, 'uid': vc.str('uid0'), 'resourceVersion': vc.str('rv0')}
+    if stored_dummy is not None:
+        md['annotations'] = {DUMMY[2]: stored_dummy}
+    body = bodies.Body({'metadata': md, 'spec': {}})
+    pk = vc.nondet(3, 'patch: empty / fields / fns only')
+    patch = patches.Patch({'status': {'y': vc.str('patch.status.y')}} if pk == 1 else {}, body=body,
+                          fns=[Opaque('fn1')] if pk == 2 else [])
+    nd = vc.nondet(3, 'number of delays')
+    delays = [vc.real(f'delay{i}') for i in range(nd)]
+    pressure = StubEvent('stream_pressure') if vc.nondet(2, 'stream_pressure given?') == 1 else None
+    clock = Clock()
+    touches, pcs = [], []
+
+    def touch(*, body, patch, value):
+        touches.append((patch, value))
+        differs = (stored_dummy is not None) if value is None else (stored_dummy is None or bool(Not(Eq(value, stored_dummy))))
+        if differs:
+            patch.setdefault('metadata', {}).setdefault('annotations', {})[DUMMY[2]] = value
+    storage = Opaque('progress_storage'); storage.touch = touch
+    settings = Opaque('settings', persistence=Opaque('persistence', progress_storage=storage))
+    resource = Opaque('resource')
+    nows = []
+
+    class _Now:
+        def isoformat(self):
+            v = vc.str('now.isoformat')
+            if stored_dummy is not None:
+                vc.assume(Not(Eq(v, stored_dummy)), 'the timestamp differs from the stored touch-dummy')
+            nows.append(v)
+            return v
+
+    class _DT:
+        @staticmethod
+        def now(tz=None):
+            return _Now()
+    stub_datetime = Opaque('datetime', datetime=_DT, timezone=Opaque('timezone', utc='UTC'))
+
+    async def patch_and_check(*, settings, resource, body, patch, logger):
+        c = Opaque('call', patch=patch, fields=dict(patch), n_fns=len(patch.fns), seq=len(vc.trace), settings=settings,
+                   resource=resource, body=body, sent=False, ret=(None, None), exc=None)
+        pcs.append(c)
+        vc.emit('patch_and_check', c)
+        if not patch:
+            return c.ret                     # A2.empty_patch_no_request
+        await suspend('patch_and_check')
+        if pressure is not None:
+            pressure.havoc()
+        kinds = ['delivered', 'gone', 'error'] + (['conflict', 'nothing-to-send'] if patch.fns else [])
+        if not len(dict(patch)) and not patch.fns:
+            raise Unsupported('unreachable: truthy patch without fields and fns')
+        k = kinds[vc.nondet(len(kinds), 'patch_and_check outcome')]
+        # A3: a patch with fields always produces a merge-patch request; fns alone may compute no ops at all
+        if k == 'nothing-to-send':
+            vc.assume(len(dict(patch)) == 0, 'A3: a patch with fields always sends a merge-patch request')
+            return c.ret
+        c.sent = True
+        if k == 'error':
+            c.exc = errors.APIServerError(None, status=500, headers={})
+            raise c.exc
+        if k == 'delivered':
+            c.ret = (vc.str('version'), None)
+        elif k == 'conflict':
+            c.ret = (vc.opt('version', vc.str), patches.Patch(fns=patch.fns))
+        return c.ret
+    vc.used('application.patch_and_check', 'A2')
+    vc.used('aiotime.sleep', 'T1')
+    ld = vc.load('kopf._core.actions.application', 'apply', stubs={
+        'patch_and_check': patch_and_check, 'aiotime.sleep': make_sleep(clock), 'datetime': stub_datetime})
+    kw = dict(settings=settings, resource=resource, body=body, patch=patch, delays=delays, logger=NullLogger())
+    if pressure is not None:
+        kw['stream_pressure'] = pressure
+    raised = None
+    try:
+        result = vc.drive(ld.fn(**kw))
+    except Unsupported:
+        raise
+    except Exception as e:
+        raised = e
+    sleeps = [ev for ev in vc.trace if ev[0] == 'sleep']        # ('sleep', m, wakeup, result, how)
+    failed_calls = [c for c in pcs if getattr(c, 'exc', None) is not None]
+    # a failed PATCH has no echo: its error must reach the caller (which throttles and retries, C12)
+    vc.ensure('only_patching_errors_escape', raised is (failed_calls[0].exc if failed_calls else None))
+    if raised is not None:
+        # only the patching call's own error escapes (C12 contains it); nothing is slept or sent after it
+        vc.ensure('only_patching_errors_escape', bool(pcs) and pcs[-1].sent and raised is getattr(pcs[-1], 'exc', None)
+                  and vc.trace[-1][0] == 'patch_and_check')
+        return ('raise', type(raised).__name__)
+    ok = isinstance(result, tuple) and len(result) == 3
+    applied, version, remaining = result if ok else (None, None, None)
+    first = pcs[0] if pcs else None
+    main_sent = first is not None and first.patch is patch and first.sent and first not in failed_calls
+    touch_calls = [c for c in pcs[1:] if c.patch is not patch]
+    touched = len(touch_calls) == 1 and touch_calls[0].sent and touch_calls[0] not in failed_calls
+    any_sent = any(c.sent for c in pcs)
+    interrupted = bool(sleeps) and sleeps[-1][4] in ('woken', 'already-set') and pressure is not None and pressure.is_set()
+    has_delay = len(delays) > 0
+    vc.canary('canary.always_applied', applied is True)
+    vc.canary('canary.never_touches', not touched)
+    vc.canary('canary.never_sleeps', not sleeps)
+    # (a) quiescence
+    vc.ensure('quiescent_iff_nothing_to_do', ok and isinstance(applied, bool))
+    vc.ensure('quiescent_iff_nothing_to_do', Implies(applied is True, (not any_sent) and (not has_delay) and (not sleeps) and pk == 0))
+    vc.ensure('quiescent_iff_nothing_to_do', Implies(pk == 0 and not has_delay, applied is True and not any_sent and not touches))
+    # (b)/(c)/(d): a pending delay is never dropped
+    if has_delay:
+        vc.ensure('no_lost_retrigger', Or(main_sent, interrupted, touched),
+                  excuse={'F-C03-1': pk == 2 and first is not None and not first.sent})
+    # exactly once: the accumulated patch goes out in one call, first, and only it
+    vc.ensure('patched_means_no_sleep_no_touch', first is not None and first.patch is patch and all(c.patch is not patch for c in pcs[1:]))
+    if main_sent:
+        vc.ensure('patched_means_no_sleep_no_touch', not sleeps and len(pcs) == 1)
+    # the sleep
+    vc.ensure('sleep_interruptible_and_not_longer_than_delay', len(sleeps) <= 1)
+    for ev in sleeps:
+        _, m, wakeup, res, how = ev
+        vc.ensure('sleep_interruptible_and_not_longer_than_delay', wakeup is pressure)
+        vc.ensure('sleep_interruptible_and_not_longer_than_delay', And(has_delay, m > 0, *[m <= d for d in delays]))
+    # (d) the touch
+    vc.ensure('touch_only_after_full_sleep', len(touch_calls) <= 1 and len(pcs) == 1 + len(touch_calls))
+    if touch_calls:
+        slept_out = bool(sleeps) and sleeps[-1][4] == 'timeout'
+        no_need_to_sleep = (not sleeps or sleeps[-1][4] == 'nosleep') and has_delay and bool(Or(*[d <= 0 for d in delays]))
+        vc.ensure('touch_only_after_full_sleep', has_delay and pk == 0 and (slept_out or no_need_to_sleep))
+        t = touch_calls[0]
+        f = t.fields
+        for key in DUMMY:
+            f = f.get(key) if isinstance(f, dict) else None
+        vc.ensure('touch_is_fresh_and_separate', len(nows) >= 1 and f is nows[-1] and t.n_fns == 0 and t.sent
+                  and t.body is body and t.resource is resource and t.settings is settings)
+    if pk == 0 and has_delay:
+        nonpositive = Or(*[d <= 0 for d in delays])
+        vc.ensure('immediate_touch', Implies(nonpositive, And(touched, not sleeps or sleeps[-1][4] == 'nosleep')))
+    # results
+    vc.ensure('returns_last_version_and_first_remaining', ok and first is not None and remaining is first.ret[1])
+    last = pcs[-1] if pcs else None
+    vc.ensure('returns_last_version_and_first_remaining', ok and last is not None and version is last.ret[0])
+    return ('return', applied, version, remaining is None, [c.sent for c in pcs], [ev[4] for ev in sleeps])
